@@ -132,8 +132,9 @@ impl<T> Mutex<T> {
 /// Stand-in for `std::sync::RwLock` where a lock can be held across a schedule point (the model
 /// lock of `Core`, held while the app's `update` and `view` run).
 ///
-/// Without a controller on the calling thread it *is* the std lock. With one, a blocking
-/// acquisition that would have to wait hands control to the controller instead (schedule point
+/// Without a controller on the calling thread it *is* the std lock. With one, every blocking
+/// acquisition is a schedule point first (`rwlock.read` / `rwlock.write`), and one that would
+/// have to wait hands control to the controller instead (schedule point
 /// `rwlock.contended`) and tries again when the thread is resumed, so that a simulated thread
 /// never sleeps in the kernel while it holds the simulator's baton. `try_read` / `try_write`
 /// are the std operations unchanged: they fail exactly when another (possibly parked) thread
@@ -149,6 +150,9 @@ impl<T> RwLock<T> {
     /// # Errors
     /// As `std::sync::RwLock::read`.
     pub fn read(&self) -> std::sync::LockResult<std::sync::RwLockReadGuard<'_, T>> {
+        if let Some(c) = current() {
+            c.point("rwlock.read");
+        }
         loop {
             match self.0.try_read() {
                 Ok(guard) => return Ok(guard),
@@ -164,6 +168,9 @@ impl<T> RwLock<T> {
     /// # Errors
     /// As `std::sync::RwLock::write`.
     pub fn write(&self) -> std::sync::LockResult<std::sync::RwLockWriteGuard<'_, T>> {
+        if let Some(c) = current() {
+            c.point("rwlock.write");
+        }
         loop {
             match self.0.try_write() {
                 Ok(guard) => return Ok(guard),
